@@ -17,6 +17,18 @@ func rmap(r *resources.Resource) map[string]int64 {
 	return m
 }
 
+// pz drops explicit zero entries: for usage-type quantities (allocated, pending, preempting, occupied, tracked usage)
+// an explicit zero and an absent type mean the same, and the core prunes them at different moments
+func pz(m map[string]int64) map[string]int64 {
+	out := map[string]int64{}
+	for k, v := range m {
+		if v != 0 {
+			out[k] = v
+		}
+	}
+	return out
+}
+
 func i64map(m map[string]int64) map[string]int64 {
 	if m == nil {
 		return map[string]int64{}
@@ -35,9 +47,9 @@ func flatQueues(q dao.PartitionQueueDAOInfo, out M) {
 	if props == nil {
 		props = map[string]string{}
 	}
-	out[q.QueueName] = M{"alloc": i64map(q.AllocatedResource), "pending": i64map(q.PendingResource), "max": i64map(q.MaxResource), "guar": i64map(q.GuaranteedResource),
+	out[q.QueueName] = M{"alloc": pz(q.AllocatedResource), "pending": pz(q.PendingResource), "max": i64map(q.MaxResource), "guar": i64map(q.GuaranteedResource),
 		"hasMax": q.MaxResource != nil, "hasHeadroom": q.HeadRoom != nil,
-		"preempting": i64map(q.PreemptingResource), "leaf": q.IsLeaf, "managed": q.IsManaged, "status": q.Status, "parent": q.Parent,
+		"preempting": pz(q.PreemptingResource), "leaf": q.IsLeaf, "managed": q.IsManaged, "status": q.Status, "parent": q.Parent,
 		"maxApps": q.MaxRunningApps, "preemptEnabled": q.PreemptionEnabled, "fence": q.IsPreemptionFence, "prioFence": q.IsPriorityFence,
 		"prioOffset": q.PriorityOffset, "running": q.RunningApps, "allocating": strs(q.AllocatingAcceptedApps), "headroom": i64map(q.HeadRoom),
 		"props": props, "sortPolicy": q.SortingPolicy, "prioSort": q.PrioritySorting, "curPrio": q.CurrentPriority, "preemptDelay": q.PreemptionDelay}
@@ -61,7 +73,7 @@ func usageTree(q *dao.ResourceUsageDAOInfo, out M) {
 	if q == nil {
 		return
 	}
-	out[q.QueuePath] = M{"usage": i64map(q.ResourceUsage), "max": i64map(q.MaxResources), "hasMax": q.MaxResources != nil, "maxApps": q.MaxApplications, "apps": strs(q.RunningApplications)}
+	out[q.QueuePath] = M{"usage": pz(q.ResourceUsage), "max": i64map(q.MaxResources), "hasMax": q.MaxResources != nil, "maxApps": q.MaxApplications, "apps": strs(q.RunningApplications)}
 	for _, c := range q.Children {
 		usageTree(c, out)
 	}
@@ -82,7 +94,7 @@ func (w *World) Project() M {
 		for _, a := range n.GetForeignAllocations() {
 			fk[a.GetAllocationKey()] = rmap(a.GetAllocatedResource())
 		}
-		nodes[n.NodeID] = M{"cap": rmap(n.GetCapacity()), "occ": rmap(n.GetOccupiedResource()), "alloc": rmap(n.GetAllocatedResource()), "avail": rmap(n.GetAvailableResource()),
+		nodes[n.NodeID] = M{"cap": rmap(n.GetCapacity()), "occ": pz(rmap(n.GetOccupiedResource())), "alloc": pz(rmap(n.GetAllocatedResource())), "avail": rmap(n.GetAvailableResource()),
 			"keys": keys, "foreign": fk, "sched": n.IsSchedulable(), "resv": strs(n.GetReservationKeys())}
 	}
 	queues := M{}
@@ -122,8 +134,8 @@ func (w *World) Project() M {
 		}
 		phT, stT := a.VerifTimersArmed()
 		ug := a.GetUser()
-		apps[a.ApplicationID] = M{"state": a.CurrentState(), "newlog": newLog, "queue": a.GetQueuePath(), "alloc": rmap(a.GetAllocatedResource()), "phAlloc": rmap(a.GetPlaceholderResource()),
-			"pending": rmap(a.GetPendingResource()), "asks": asks, "allocs": allocs, "resv": resv, "phd": phd, "user": ug.User, "groups": append([]string{}, ug.Groups...),
+		apps[a.ApplicationID] = M{"state": a.CurrentState(), "newlog": newLog, "queue": a.GetQueuePath(), "alloc": pz(rmap(a.GetAllocatedResource())), "phAlloc": pz(rmap(a.GetPlaceholderResource())),
+			"pending": pz(rmap(a.GetPendingResource())), "asks": asks, "allocs": allocs, "resv": resv, "phd": phd, "user": ug.User, "groups": append([]string{}, ug.Groups...),
 			"forced": a.IsCreateForced(), "phTimer": phT, "stTimer": stT, "hasQueue": a.GetQueue() != nil}
 	}
 	done := []string{}
